@@ -18,12 +18,13 @@ import (
 // caseOut buffers everything a case wants to say, so that cases can run concurrently and still
 // be written in case order.
 type caseOut struct {
-	k     int
-	lines [][2]string // op, impl observation
-	fails []failRec
-	cnt   counters
-	seen  []string
-	samp  []string
+	replica string // backend kind of the reopened replicas ("" = memory)
+	k       int
+	lines   [][2]string // op, impl observation
+	fails   []failRec
+	cnt     counters
+	seen    []string
+	samp    []string
 }
 
 type failRec struct{ key, msg string }
@@ -96,6 +97,7 @@ func safeAddBlock(bc *core.Blockchain, b *block.Block) (err error) {
 
 // subjectRun is the recorded life of the subject node.
 type subjectRun struct {
+	cleanup   func()
 	st        *RecStore
 	batchInfo []batchMeta // parallel to st.Batches()
 	lines     [][2]string
@@ -133,8 +135,12 @@ func pairsStr(ps [][2]int) string {
 
 // runSubject drives a node over history h following the schedule, recording every batch.
 // With l.RUB the flushes are left to the node's own timer (that is the only way GC runs).
-func runSubject(h *History, cfg config.Blockchain, l Local, steps []Step) (*subjectRun, error) {
-	sr := &subjectRun{st: NewRecStore(storage.NewMemoryStore())}
+func runSubject(h *History, cfg config.Blockchain, l Local, steps []Step, backend string) (*subjectRun, error) {
+	inner, cleanup, err := newBackend(backend)
+	if err != nil {
+		return nil, err
+	}
+	sr := &subjectRun{st: NewRecStore(inner), cleanup: cleanup}
 	bc, err := openNode(sr.st, cfg)
 	if err != nil {
 		return nil, fmt.Errorf("subject open: %w", err)
@@ -268,7 +274,22 @@ func runSubject(h *History, cfg config.Blockchain, l Local, steps []Step) (*subj
 // checkPrefix reopens the database made of the first k batches and runs the property's oracle:
 // consistent prefix, equal to the reference at the recovered height, continues with identical roots.
 func checkPrefix(c *caseOut, h *History, cfg config.Blockchain, nb int, accepted uint32, exact bool, k int, db map[string][]byte, skip map[string]bool, tag string) {
-	st := materialise(db)
+	var st storage.Store = noCloseStore{materialise(db)}
+	if c.replica != "" && c.replica != "memory" {
+		// a disk backend holding the same content (written as one transaction)
+		ds, cleanup, err := newBackend(c.replica)
+		if err != nil {
+			c.fail("harness-backend", "%v", err)
+			return
+		}
+		defer cleanup()
+		if err := replayOnto(ds, []*Batch{{KV: db}}, 1); err != nil {
+			c.fail("harness-backend", "%v", err)
+			return
+		}
+		st = ds
+		c.cnt.count("replica-backend:" + c.replica)
+	}
 	bc, err := openNode(st, cfg)
 	if err != nil {
 		c.fail(tag+"reopen", "prefix %d/%d: NewBlockchain failed: %v", k, nb, err)
@@ -291,6 +312,20 @@ func checkPrefix(c *caseOut, h *History, cfg config.Blockchain, nb int, accepted
 	}
 	if bc.HeaderHeight() < hh {
 		c.fail(tag+"header-below-block", "prefix %d: header height %d < block height %d", k, bc.HeaderHeight(), hh)
+	}
+	// the header chain on disk is the one the node knows after the restart
+	if v, ok := db["\xc1"]; ok && len(v) >= 36 {
+		want := binary.LittleEndian.Uint32(v[32:36])
+		if bc.HeaderHeight() != want {
+			c.fail(tag+"header-height", "prefix %d: the database holds headers up to %d, the reopened node reports header height %d", k, want, bc.HeaderHeight())
+		} else if want <= h.N() && bc.CurrentHeaderHash() != h.hashOf(want) {
+			c.fail(tag+"header-hash", "prefix %d: current header hash at %d is not the canonical one", k, want)
+		}
+		for _, i := range []uint32{0, want / 2, want} {
+			if i <= h.N() && bc.GetHeaderHash(i) != h.hashOf(i) {
+				c.fail(tag+"header-hash-list", "prefix %d: GetHeaderHash(%d) is not the canonical hash (header height %d)", k, i, want)
+			}
+		}
 	}
 	if hh > h.N() {
 		return
@@ -319,6 +354,21 @@ func checkPrefix(c *caseOut, h *History, cfg config.Blockchain, nb int, accepted
 		got = observe(bc, h, h.N())
 		if d := h.Ref[h.N()].diff(&got, skip); len(d) > 0 {
 			c.fail(tag+"continue-"+d[0], "prefix %d: recovered at %d and continued to %d, differs from the reference in %v: ref %q got %q", k, hh, h.N(), d, h.Ref[h.N()].get(d[0]), got.get(d[0]))
+			return
+		}
+		// a clean stop and one more restart of the continued node
+		bc.Close()
+		bc2, err := openNode(st, cfg)
+		if err != nil {
+			c.fail(tag+"second-reopen", "prefix %d: recovered at %d, continued to %d, stopped cleanly: the next NewBlockchain failed: %v", k, hh, h.N(), err)
+			return
+		}
+		got = observe(bc2, h, h.N())
+		if d := h.Ref[h.N()].diff(&got, skip); len(d) > 0 {
+			c.fail(tag+"second-"+d[0], "prefix %d: recovered at %d, continued to %d, restarted: differs from the reference in %v", k, hh, h.N(), d)
+		}
+		if bc2.HeaderHeight() != h.N() {
+			c.fail(tag+"second-header-height", "prefix %d: after the second restart header height is %d, expected %d", k, bc2.HeaderHeight(), h.N())
 		}
 	}
 }
